@@ -1,4 +1,6 @@
 """C04 - every change reaches the database: commit + reload reproduces the contents."""
+import copy
+
 from vlib import families as F
 from vlib import histories as H
 from vlib import minizodb as Z
@@ -40,6 +42,19 @@ def run_shard(shard, ctx):
                       reverse=True)
         for pos in cuts:
             ops.insert(pos, [draw(st.sampled_from(['commit', 'commit', 'commit', 'abort']))])
+        # cache sweeps in the middle of transactions: unchanged nodes become ghosts, nodes with uncommitted changes
+        # must refuse (their changes exist nowhere else)
+        for pos in draw(st.lists(st.integers(0, max(len(ops), 1)), max_size=4)):
+            ops.insert(pos, ['sweep'])
+        if F.is_map(c['cfg']['kind']) and c['cfg']['fam'][1] == 'O' and draw(st.booleans()):
+            # mutable values changed in place and stored again (v = t[k]; v.append(x); t[k] = v): the container has
+            # to announce the change although it is handed the very object it already holds
+            n = draw(st.integers(1, 6))
+            for j in range(n):
+                pos = draw(st.integers(0, len(ops)))
+                ops.insert(pos, draw(st.sampled_from([['setmut', {'@': draw(st.integers(0, 40))}, j],
+                                                      ['touch', draw(st.integers(0, 40)), j],
+                                                      ['touch', draw(st.integers(0, 40)), j]])))
         ops.append(['commit'])
         return c
 
@@ -111,7 +126,7 @@ def run_case(case, ctx):
                     raise Violation('step %d: after commit %d object(s) are still marked changed: they '
                                     'changed without registering: %r' % (i, len(left), left[:3]),
                                     dict(sig, what='changed-unregistered'))
-                committed = dict(lv.model)
+                committed = copy.deepcopy(lv.model)
                 what = 'step %d commit of %s%s(%s) after %r' % (i, lv.fam, lv.kind, lv.impl, case['ops'][max(0, i - 6):i])
                 rt = _reader_check(lv, sto, oid, lv.model_contents(), what, sig, ctx)
                 st = rt.__getstate__()
@@ -125,7 +140,7 @@ def run_case(case, ctx):
                 continue
             if op[0] == 'abort':
                 w.abort()
-                lv.model = dict(committed)
+                lv.model = copy.deepcopy(committed)
                 got = lv.contents()
                 want = lv.model_contents()
                 if got != want:
@@ -146,7 +161,37 @@ def run_case(case, ctx):
                 lv.events.clear()
                 lv._leaf_ids = []
                 continue
-            before = lv.model_contents()
+            if op[0] == 'sweep':
+                w.minimize()
+                for _o, ob in list(w.cache.items()):
+                    ob._p_deactivate()
+                classes.append('sweep_in_transaction' + ('_with_changes' if mutated else ''))
+                got = lv.contents()
+                if got != lv.model_contents():
+                    ctx.mismatch('step %d: after a cache sweep in mid-transaction the writer sees %r, model %r (ops since: '
+                                 '%r)' % (i, got, lv.model_contents(), case['ops'][max(0, i - 6):i]),
+                                 dict(sig, what='sweep-contents'), recoverable=False)
+                continue
+            if op[0] in ('setmut', 'touch'):
+                if op[0] == 'setmut':
+                    k = lv.K(op[1])
+                    v = ['m', op[2]]
+                    lv.t[k] = v
+                    lv.model[k] = v
+                    mutated = True
+                else:
+                    ks = [k for k in lv.sorted_keys() if isinstance(lv.model[k], list)]
+                    if ks:
+                        k = ks[op[1] % len(ks)]
+                        v = lv.t[k]
+                        v.append(op[2])
+                        lv.t[k] = v
+                        if lv.model[k] is not v:
+                            lv.model[k] = lv.model[k] + [op[2]]
+                        mutated = True
+                        classes.append('mutable_value_changed_in_place')
+                continue
+            before = copy.deepcopy(lv.model_contents())
             got, want, mode = lv.step(op)
             if not H.same(got, want, mode):
                 if ctx.known(dict(H.arg_features(lv, op), impl=lv.impl, kind=lv.kind, op=op[0],
